@@ -206,7 +206,7 @@ func composeDetGrammar(name string, blocks []*detBlock, src *sim.Src) (text, des
 	sb.WriteString(detLexerPrelude)
 	for i, b := range blocks {
 		fmt.Fprintf(&sb, "'k%02d': /k%02d/\n", i+1, i+1)
-		sb.WriteString(b.lexer)
+		sb.WriteString(strings.ReplaceAll(b.lexer, "KW", fmt.Sprintf("k%02d", i+1)))
 	}
 	if parserK > 1 {
 		fmt.Fprintf(&sb, "\n:: parser lalr(%d)\n\n%%input input;\n\n", parserK)
@@ -214,7 +214,7 @@ func composeDetGrammar(name string, blocks []*detBlock, src *sim.Src) (text, des
 		sb.WriteString("\n:: parser\n\n%input input;\n\n")
 	}
 	for i, b := range blocks {
-		sb.WriteString(strings.ReplaceAll(b.decls, "'KW'", fmt.Sprintf("'k%02d'", i+1)))
+		sb.WriteString(strings.ReplaceAll(b.decls, "KW", fmt.Sprintf("k%02d", i+1)))
 	}
 	arrow := func(s string) string {
 		if events {
@@ -232,7 +232,7 @@ func composeDetGrammar(name string, blocks []*detBlock, src *sim.Src) (text, des
 	}
 	sb.WriteString(";\n\n")
 	for i, b := range blocks {
-		r := strings.ReplaceAll(b.rules, "'KW'", fmt.Sprintf("'k%02d'", i+1))
+		r := strings.ReplaceAll(b.rules, "KW", fmt.Sprintf("k%02d", i+1))
 		r = strings.Replace(r, "@", fmt.Sprintf("blk%02d", i+1), 1)
 		if !events {
 			r = stripArrows(r)
